@@ -14,7 +14,7 @@ PROPS = {
         rule="tape-decoded systems n<=40 (graph patterns path/grid/er/tree/band/star/union/diagonal and dense n<=8; Hermitian positive definite, general incl. structurally "
              "non-symmetric and indefinite, complex with non-real diagonal; kappa_2 driven constructively to a log-uniform target <=95 and measured with Eigen), preconditioner in "
              "{amgcl dummy, exact dense inverse, Jacobi, random SPD/HPD dense M} applied through a user-defined preconditioner class, non-zero x0, maxiter=k for k=1..min(n,40) with tol=abstol=0, "
-             "restart M in {1,2,4,40}, LGMRES K in 0..3, both sides, BiCGStab(L) L in {1,2,4}, IDR(s) s in 1..min(8,n), thread count 1. "
+             "restart M in {1,2,4,40}, LGMRES(M,K) with K in 0..3 for k up to 3(M+K)+1 (three cycles, augmentation vectors in use), both sides, BiCGStab(L) L in {1,2,4}, IDR(s) s in 1..min(8,n), thread count 1. "
              "non-trivial (iterate props): at least two iterates k>=1 were compared decisively (tolerance < 1e-6 |x_k-x_0|) with the long-double textbook reference and the iterate moved away from x0; "
              "non-trivial (finite termination): n>=2, the solver needed >=2 iterations and the initial relative residual is >1e-6. distinct = distinct decoded choice sequences (64-bit hash), united over shards.",
         assumptions=["the textbook reference solvers in props/c05_refsolvers.hpp (long double) are correct",
@@ -29,7 +29,7 @@ PROPS = {
 MANIFEST_TEXT = {
     "C05": dict(
         engine="rapidcheck",
-        technique="property-based testing of make_solver<Precond, Solver> with maxiter=k against independent long-double textbook reference solvers (CG, BiCGStab, GMRES(M), FGMRES(M), Richardson), "
+        technique="property-based testing of make_solver<Precond, Solver> with maxiter=k against independent long-double textbook reference solvers (CG, BiCGStab, GMRES(M), FGMRES(M), dense LGMRES(M,K), Richardson), "
                   "dense least-squares optimality oracles (Eigen, long double) for CG / GMRES / FGMRES / LGMRES, and finite-termination runs of all eight methods (also on the library templates instantiated for long double)",
         level_text="Generated-input search over small well-conditioned real and complex systems, every iteration index k up to the subspace size, restart lengths, sides and preconditioners; "
                    "each k-th iterate is compared with a reference implementation written from the textbook recurrences, and optimality is decided by dense least squares. "
